@@ -143,6 +143,11 @@ func Generate(rng *rand.Rand, i int, thorough bool) *p2prig.Scenario {
 		if s.Engine == "exp" && (i/3)%2 == 1 {
 			bad.UnknownFirst = true
 		}
+		if bad.ForkBelow == 0 && (i/3)%2 == 0 {
+			// its answers carry everything it has: a message then holds matching checkpoint headers first and the
+			// contradicting one further on
+			bad.IgnoreStop = true
+		}
 		s.Nodes = append(s.Nodes, bad)
 		if s.Engine == "legacy" && rng.Intn(3) == 0 {
 			at2 := s.CheckpointHeights[rng.Intn(len(s.CheckpointHeights))]
@@ -206,7 +211,7 @@ func classify(s *p2prig.Scenario) string {
 }
 
 func body(r *ev.Run) {
-	r.Rule("scenarios = seeded draws over engine {legacy, experimental} x {a node whose chain carries a header on the forbidden list at position first/middle/last/alone of its batch; a node whose chain differs from a checkpoint at a checkpoint height; offenders that first send a message with an unknown command (experimental engine) or that are no full nodes and push their headers right after the handshake (default engine); a single honest node serving a sync across 2..4 checkpoints, its answers ending at the stop hash or carrying all it has (a checkpoint header in the middle of a message, several checkpoints in one message)} x checkpoint lists of 0..4 checkpoints at arbitrary heights x 1-2 misbehaving + 1-2 honest nodes x ban duration {1 h, 1 ms}. Misbehaving nodes are the only reachable ones first (so they are asked), then the honest ones open. Oracles: forbidden hash never in the table nor served (404); its sender's connection closed at quiescence; with a 1 h ban no later connection of that host is sent a getheaders, with a 1 ms ban a later connection is admitted; descendants only ORPHAN; hit and run: a host delivers the forbidden header and closes its connection at once - a newcomer of that host is refused all the same (1 h ban); re-offence: a host with two connections is banned, the 3 s ban elapses with no attempt of that host, its second connection delivers the forbidden header again and a newcomer of the host must be refused (judged within 1.5 s of the second offence); after a checkpoint mismatch the connection is closed and no further getheaders was sent on it; every request stops at the first checkpoint above what has been delivered, and at zero (or an announced block) after the last; afterwards the service converges on the honest chain (C06 oracle). distinct = structural classes; non-trivial = all.")
+	r.Rule("scenarios = seeded draws over engine {legacy, experimental} x {a node whose chain carries a header on the forbidden list at position first/middle/last/alone of its batch; a node whose chain differs from a checkpoint at a checkpoint height; offenders that first send a message with an unknown command (experimental engine) or that are no full nodes and push their headers right after the handshake (default engine); a single honest node serving a sync across 2..4 checkpoints, its answers ending at the stop hash or carrying all it has (a checkpoint header in the middle of a message, several checkpoints in one message)} x checkpoint lists of 0..4 checkpoints at arbitrary heights x 1-2 misbehaving + 1-2 honest nodes x ban duration {1 h, 1 ms}. Misbehaving nodes are the only reachable ones first (so they are asked), then the honest ones open. Oracles: forbidden hash never in the table nor served (404); its sender's connection closed at quiescence; with a 1 h ban no later connection of that host is sent a getheaders, with a 1 ms ban a later connection is admitted; descendants only ORPHAN; hit and run: a host delivers the forbidden header and closes its connection at once - a newcomer of that host is refused all the same (1 h ban); re-offence: a host with two connections is banned, the 3 s ban elapses with no attempt of that host, its second connection delivers the forbidden header again and a newcomer of the host must be refused (judged within 1.5 s of the second offence); after a checkpoint mismatch the connection is closed and no further getheaders was sent on it; every request stops at the first checkpoint above what has been delivered, and at zero (or an announced block) after the last; no request stops at a checkpoint that lies at or below the block it continues from; afterwards the service converges on the honest chain (C06 oracle). distinct = structural classes; non-trivial = all.")
 	r.Assume("the forbidden hash is harness-chosen and appended to the network parameters before the services are built", "contradicting blocks are lighter than honest ones", "experimental engine: peers are attached one after the other (single-outbound-peer design); it disconnects but does not ban", "ban observed by effect at the scripted node")
 	r.Require("forbidden_header_delivered", 3)
 	r.Require("reoffend_newcomer_refused", 2)
